@@ -141,6 +141,8 @@ def direct(run, chk):
                     bad("order", {"kind": "program", "source": pre + "".join(m + " @ " for m in perm) + call + ";\n",
                                   "what": "modifier stacks %s and %s differ: %s" % (ref[0], perm, why)})
     direct.checked = checked
+    # the whole-program theorem (modified basis gates unroll to repetitions, Lang/ModUnrollProofs.v) on every case it applies to
+    direct.expansion = langcheck.expansion_oracle(run, chk)
 
 
 def run(tier, seed, replay):
@@ -148,6 +150,6 @@ def run(tier, seed, replay):
         return langcheck.replay_cmd(PROP, replay)
     direct.checked = {}
     return langcheck.standard(PROP, tier, seed, cases(tier, seed), classify, direct=direct,
-                              extra_cov=lambda run: {"real_code_oracles": direct.checked},
+                              extra_cov=lambda run: {"real_code_oracles": direct.checked, "whole_program_theorem_judgement_on_real_programs": getattr(direct, "expansion", {})},
                               trusted=["harness/flatsim.py, harness/gatenum.py (numeric simulator used as search oracle)",
                                        "spec/gates_spec.py (defining unitaries)", "axioms of Reals (library inverse theorem)"])
